@@ -127,6 +127,26 @@ def job_deep():
                                         {"engine": "E2", "module": MOD, "part": "deep", "kind": kind, "height": height, "iterator": name})
                 for nd in nodes:
                     nd.parent = None
+        # one very wide node: the iterators must not spend stack frames (or quadratic time) per sibling
+        width = 5000
+        m = tree.Model([None] + [0] * width, [list(range(1, width + 1))] + [[] for _ in range(width)])
+        for kind in ("user", "light"):
+            nodes = tree.build(m, tree.default_factory(kind), "bottomup")
+            idm = tree.IdMap(nodes)
+            kids = list(range(1, width + 1))
+            for name in its:
+                for start in (0, width):
+                    got = list(its[name](nodes[start]))
+                    got = [idm.seq(g) for g in got] if name in ("groups", "zigzag") else idm.seq(got)
+                    if start:
+                        exp = [[start]] if name in ("groups", "zigzag") else [start]
+                    else:
+                        exp = {"pre": [0] + kids, "post": kids + [0], "level": [0] + kids, "groups": [[0], kids], "zigzag": [[0], kids[::-1]]}[name]
+                    t.c["evaluations"] += 1
+                    t.c["deep_chain_iterations"] += 1
+                    if got != exp:
+                        t.violation("C05: %s on a node with %d children differs from its definition" % (name, width),
+                                    {"engine": "E2", "module": MOD, "part": "deep", "kind": kind, "width": width, "iterator": name})
 
     core.guard(t, "C05", {"engine": "E2", "module": MOD, "part": "deep"}, run, _limit=60)
     return t
